@@ -45,36 +45,37 @@ def spin (b : Bool) : α := toPm1 (bit b)
 pauli.py:46-47, 96-97, 149-150, entanglement.py:54-55, interactions.py:37-40). Names are the keys under which `System`
 and `ObservableEvaluator` report an observable. -/
 
-/-- `str(flag)` — what `"{}".format(flag)` prints for the object handed over as a flag -/
-def PyFlag.pyStr : PyFlag → String
+/-- `"{}".format(flag)` for the object handed over as a flag: `format(x, "")` of a `bool` / `numpy.bool_` is
+`True` / `False`, of an `int` its decimal; a 0-d numpy array and a 0-d torch tensor format as their ITEM
+(`ndarray.__format__`, `Tensor.__format__`), not as `array(True)` / `tensor(True)`. -/
+def PyFlag.pyFormat : PyFlag → String
   | .pyBool b => if b then "True" else "False"
   | .pyInt i => toString i
   | .npBool b => if b then "True" else "False"
   | .npArr0 b => if b then "True" else "False"
-  | .tensor0 b => if b then "tensor(True)" else "tensor(False)"
+  | .tensor0 b => if b then "True" else "False"
 
-/-- `str(c)` for the interaction distance: decimal for Python / numpy integers and 0-d numpy arrays, `tensor(c)` for a
-0-d torch tensor -/
-def distStr (c : Nat) (tensorForm : Bool) : String :=
-  if tensorForm then "tensor(" ++ toString c ++ ")" else toString c
+/-- `"{}".format(c)` / `f"{c}"` for the interaction distance: the decimal numeral for a Python int, a numpy integer, a
+0-d numpy array and a 0-d torch tensor alike (the latter two format as their item) -/
+def distStr (c : Nat) : String := toString c
 
 /-- the built-in observable classes with the constructor arguments that enter their names -/
 inductive Builtin where
   | sigmaX | sigmaY | sigmaZ | swap
-  | neighbour (periodic : PyFlag) (c : Nat) (cTensor : Bool)
+  | neighbour (periodic : PyFlag) (c : Nat)
 
 /-- `(class name, name, symbol)` after `__init__`: note that `absolute` (Pauli) and `A` (SWAP) do NOT enter the name —
-two such observables given to one `System` collide (known finding F19) — while `periodic_bcs` and `c` do, rendered
-with `str` of the objects AS PASSED. -/
+two such observables given to one `System` collide (known finding F19) — while `periodic_bcs` and `c` do, formatted
+from the objects AS PASSED (`periodic_bcs=1` reads `1`, not `True`). -/
 def Builtin.names : Builtin → String × String × String
   | .sigmaX => ("SigmaX", "SigmaX", "X")
   | .sigmaY => ("SigmaY", "SigmaY", "Y")
   | .sigmaZ => ("SigmaZ", "SigmaZ", "Z")
   | .swap => ("SWAP", "SWAP", "S")
-  | .neighbour p c t =>
+  | .neighbour p c =>
     ("NeighbourInteraction",
-     "NeighbourInteraction(periodic_bcs=" ++ p.pyStr ++ ", c=" ++ distStr c t ++ ")",
-     "(Z_i * Z_(i+" ++ distStr c t ++ "))")
+     "NeighbourInteraction(periodic_bcs=" ++ p.pyFormat ++ ", c=" ++ distStr c ++ ")",
+     "(Z_i * Z_(i+" ++ distStr c ++ "))")
 
 /-- The importance-sampling interface of `NeuralStateBase` (neural_state.py:266-324):
 `numer vp v = importance_sampling_numerator(vp, v)`, `denom v = importance_sampling_denominator(v)`. -/
